@@ -102,6 +102,18 @@ CLAIMED.update({
         design="8/C08"),
 })
 
+CLAIMED.update({
+    "C18": dict(
+        text=("Theorems: values are opaque byte lists in every model, so get-version after put returns exactly the bytes put (put_getVersion), the first put is what get returns, and a "
+              "restart serves the same bytes (codec + sealed-file round-trip over a synced state); the CLI text policy is a total decision function: binary input verbatim, clean text "
+              "verbatim, spaced text verbatim under --verbatim (which wins), trimmed under --trim-space, refused with neither, empty refused unless --empty-ok; whatever is sent is "
+              "the input or its trimmed form. Tie: the real setec binary (all flag combinations, file and pipe) against a local server whose database is inspected and whose "
+              "/api/put counter detects contact; byte strings of every class and size through every retrieval path incl. cache, file client and server restart."),
+        note=COMMON_NOTE + "encoding/base64 and encoding/json text layers, utf8.Valid and bytes.TrimSpace are trusted (exercised, not modelled).",
+        technique="Lean 4 theorems (decision logic of the put policy; byte preservation through model layers) + differential runs of the real binary and all retrieval paths",
+        design="8/C18"),
+})
+
 NOT_YET = {}
 
 def manifest():
